@@ -649,10 +649,14 @@ def match_case_strategy(draw):
     sets = []
     anchor = draw(instants("second"))
     for k in range(2):
-        tpl = draw(templates(max_dirs=2, end_styles=("full",),
+        tpl = draw(templates(max_dirs=2,
+                             end_styles=draw(st.sampled_from(
+                                 [("full",), ("full",), ("none",)])),
                              allow_wild=False, allow_ms=False,
                              min_res="second",
                              allow_user=draw(st.booleans())))
+        if tpl["coverage_s"] is not None:
+            tpl["coverage_s"] = int(max(1, tpl["coverage_s"]))  # whole seconds
         limit = dir_period(tpl)
         n = draw(st.integers(1, 12))
         files = []
@@ -665,6 +669,8 @@ def match_case_strategy(draw):
             if limit is not None:
                 dur = min(dur, int(limit.total_seconds()))
             e = s + dt.timedelta(seconds=dur)
+            if end_style(tpl) == "none":
+                e = s               # duration comes from time_coverage
             if not (year_ok(tpl, s.year) and year_ok(tpl, e.year)):
                 continue
             files.append({"s": s, "e": e, "attrs": {
@@ -688,7 +694,20 @@ def match_case_strategy(draw):
                           "attrs": {name: spec["values"][0] for name, spec
                                     in sorted(tpl["user"].items())},
                           "wild": ""})
-        sets.append({"template": tpl, "files": files})
+        spec = {"template": tpl, "files": files,
+                "late_coverage": draw(st.booleans())}
+        if draw(st.integers(0, 7)) == 0:
+            # a single-file fileset instead: default coverage (all times) or
+            # an explicit one, ordinary or far outside 1677..2262
+            lo_f = min(f["s"] for f in files)
+            hi_f = max(f["e"] for f in files)
+            spec["single"] = {"coverage": draw(st.sampled_from([
+                None, None,
+                [dt.datetime(1600, 1, 1), dt.datetime(2400, 1, 1)],
+                [lo_f - dt.timedelta(seconds=30),
+                 hi_f + dt.timedelta(seconds=30)],
+                [lo_f, lo_f + dt.timedelta(seconds=90)]]))}
+        sets.append(spec)
     every = [f for s_ in sets for f in s_["files"]]
     lo = min(f["s"] for f in every)
     hi = max(f["e"] for f in every)
